@@ -144,7 +144,9 @@ var aFrags = []string{"", "", "", "#frag", "#a b", "#a%20b"}
 var aTypes = []string{"", "", "", "git::", "GIT::", "https::", "http::", "hg::", "git::git::", "Git::", "s3::", "::"}
 var aSchemes = []string{"https://", "https://", "HTTPS://", "http://", "ssh://", "git://", "file://", "", "https:/", "Ssh://"}
 var aUsers = []string{"", "", "", "", "user@", "user:pw@", ":pw@", "@"}
-var aSubs = []string{"", "", "", "//sub", "//a/b", "//a/../b", "//.", "//a//b", "//dir with space", "//a%20b", "//*", "//..", "//a/./b", "//é", "//a#b", "//a?b"}
+var aSubs = []string{"", "", "", "//sub", "//a/b", "//a/../b", "//.", "//a//b", "//dir with space", "//a%20b", "//*", "//..", "//a/./b", "//é", "//a#b", "//a?b",
+	// percent-escaped dots and separators: literal characters of a sub-path, never decoded (seed C07-d)
+	"//%2e%2e/secret", "//a/%2E%2E/%2e%2e/b", "//a%2fb", "//%2e", "//m%2f%2fn"}
 var aWhole = []string{"github.com/org/repo", "github.com/org/repo/sub/dir", "github.com/org", "gitlab.com/org/repo.git", "gitlab.com/org/repo/a/b", "github.com/org/repo.git//x",
 	"hashicorp/subnets/cidr", "example.com/foo/bar/baz//sub", "./a", "../b", ".", "./.", "..", "./a/../b", "", " ./a", "github.com/", "github.com/o/r?ref=x", "gitlab.com/o/r/s/t?ref=y",
 	"hashicorp/subnets/cidr//a/b/../c", "example.com/foo/bar/baz@1.0.0//beep", "foo/bar/baz@1.2.3", "foo/bar/baz@0.0.0-a//x", "./a:b", ".\\a", "a/b", "../", "./"}
